@@ -1,44 +1,11 @@
 import DirectVerif.Lemmas.C08Static
 /-!
-# C08 helper lemmas — crop shape tags and mask seeds
+# C08 helper lemmas — mask seeds
 
-* `cropEnum_*`: kernel evaluation of the shape-tag interpreter for a tuple crop, per reconstruction type, over
-  supervised / SSL, sensitivity maps off / unit / RSS, zero-padding stage on / off, scaling key.
 * `seedsOk_build`: for every configuration with seeding enabled, every sampling-mask / ACS-mask
   generation in the composed program is seeded by the file name only.
 -/
 namespace DirectVerif.Pipeline
-
-def allB' (p : Bool → Bool) : Bool := p false && p true
-theorem allB'_spec {p : Bool → Bool} (h : allB' p = true) (b : Bool) : p b = true := by
-  simp only [allB', Bool.and_eq_true] at h; cases b; exact h.1; exact h.2
-
-/-- a tuple-crop configuration; the flags not listed keep their defaults -/
-def cropCfg (center : Bool) (r : Recon) (ssl es unitMap pe skK : Bool) : Config :=
-  { crop := .tuple, imageCenterCrop := center, recon := r, ssl := ssl, estimateSmaps := es,
-    smapType := if unitMap then .unit else .rssEstimate, paddingEps := pe,
-    scalingKey := if skK then .key .kspace else .key .maskedKspace }
-
-def cropEnumOk (r : Recon) : Bool :=
-  allB' fun center => allB' fun ssl => allB' fun es => allB' fun um => allB' fun pe => allB' fun sk =>
-    let c := cropCfg center r ssl es um pe sk
-    !c.valid || cropShapeOk (build c)
-
-theorem cropEnum_ifft : cropEnumOk .ifft = true := by decide +kernel
-theorem cropEnum_rss : cropEnumOk .rss = true := by decide +kernel
-theorem cropEnum_complex : cropEnumOk .complex = true := by decide +kernel
-theorem cropEnum_complexMod : cropEnumOk .complexMod = true := by decide +kernel
-theorem cropEnum_sense : cropEnumOk .sense = true := by decide +kernel
-theorem cropEnum_senseMod : cropEnumOk .senseMod = true := by decide +kernel
-
-theorem cropEnum_all (r : Recon) : cropEnumOk r = true := by
-  cases r
-  · exact cropEnum_ifft
-  · exact cropEnum_rss
-  · exact cropEnum_complex
-  · exact cropEnum_complexMod
-  · exact cropEnum_sense
-  · exact cropEnum_senseMod
 
 /-! ## seeds -/
 
